@@ -205,6 +205,8 @@ impl Driver {
             arg.fd as i64,
         );
         let event = queue.event();
+        #[cfg(compio_verif)]
+        crate::verif::emit(crate::verif::POLL_ARM, event.key as u64, arg.fd as i64);
         let res = if need_add {
             // SAFETY: the events are deleted correctly.
             unsafe { notify.poll.add(arg.fd, event) }
@@ -232,6 +234,8 @@ impl Driver {
         let queue = self.registry.entry(arg.fd).or_default();
         queue.push_front_interest(key, arg.interest);
         let event = queue.event();
+        #[cfg(compio_verif)]
+        crate::verif::emit(crate::verif::POLL_ARM, event.key as u64, arg.fd as i64);
         if need_add {
             // SAFETY: the events are deleted correctly.
             unsafe { self.poller().add(arg.fd, event)? }
@@ -244,9 +248,17 @@ impl Driver {
 
     fn renew(&mut self, fd: BorrowedFd, renew_event: Event) -> io::Result<()> {
         if !renew_event.readable && !renew_event.writable {
+            #[cfg(compio_verif)]
+            crate::verif::emit(crate::verif::POLL_DISARM, 0, fd.as_raw_fd() as i64);
             self.poller().delete(fd)?;
             self.registry.remove(&fd.as_raw_fd());
         } else {
+            #[cfg(compio_verif)]
+            crate::verif::emit(
+                crate::verif::POLL_ARM,
+                renew_event.key as u64,
+                fd.as_raw_fd() as i64,
+            );
             self.poller().modify(fd, renew_event)?;
         }
         Ok(())
